@@ -16,7 +16,9 @@ from . import nlhints
 
 
 class Obligation:
-    def __init__(self, name, hyps, goal, kind="post", props=(), witness=None, meta=None, expect_sat=False):
+    def __init__(self, name, hyps, goal, kind="post", props=(), witness=None, meta=None, expect_sat=False,
+                 concretise=None):
+        self.concretise = concretise      # callable(model) -> JSON-able replay case
         self.name, self.hyps, self.goal, self.kind = name, list(hyps), goal, kind
         self.props = tuple(props)
         self.witness = witness or {}      # label -> z3 term, evaluated in a counter-model
@@ -170,7 +172,13 @@ def prove(ob, axioms=(), timeout_ms=60000, use_external=True):
         if r == z3.sat:
             m = s.model()
             if _validate(m, ob.hyps, neg):
-                res = Result(ob, "failed", "z3-api", time.time() - t0, model=_model_dict(m, ob.witness))
+                md = _model_dict(m, ob.witness)
+                if ob.concretise is not None:
+                    try:
+                        md["__case__"] = ob.concretise(m)
+                    except Exception as e:
+                        md["__case__"] = {"__error__": repr(e)}
+                res = Result(ob, "failed", "z3-api", time.time() - t0, model=md)
                 txt = s.to_smt2()
                 res.smt2 = txt if len(txt) < 60000 else None
                 return res
